@@ -269,7 +269,7 @@ def handle (c : Case) : Verdict :=
         then fails ++ ["[C10] no final state line"] else fails
       -- F9 (nested loops, >= 2 hosts, shuffle inside the INNER body): accepted as the known finding only if the
       -- whole output is explained by the reads the inner body really made, all deviating reads being reads
-      -- of the previous outer round's state S_(k-1) on a host other than the outer leader's
+      -- of the previous outer round's state S_(k-1)
       let f9 : Option String :=
         if fails.isEmpty || !isNest kind || hosts < 2 || !(body == "n1" || body == "n3")
             || c.implOut.any (fun l => l == "blocked" || l.startsWith "panic:") then none else
@@ -277,10 +277,12 @@ def handle (c : Case) : Verdict :=
         let ats := c.implOut.filterMap parseAt
         let leaderHost : Nat := ((c.implOut.filterMap fun l => match words l with
           | ["at", "leader", h] => h.toNat? | _ => none).head?).getD 0
-        let staleHostsOk := sub.stale.all fun (ko, s) =>
+        -- hosts on which the stale reads happened (reported only: the leader's own host is not exempt — its
+        -- loop heads receive the feedback through the same `wait_sync_state` path as every other host's)
+        let staleHosts : List Nat := (sub.stale.flatMap fun (ko, s) =>
           match ats.find? fun a => a.1 == ko && a.2.1 == s with
-          | some a => !a.2.2.contains leaderHost
-          | none => false
+          | some a => a.2.2
+          | none => []).eraseDups
         -- the printed summary lines must be those of the re-computed run
         let implObs := c.implOut.filterMap parseObs
         let obsOk := implObs.all fun (lvl, ko, ki, seen) =>
@@ -289,9 +291,9 @@ def handle (c : Case) : Verdict :=
           seen.all (vals.contains ·) && vals.all (seen.contains ·)
         let stateOk := c.implOut.contains s!"state {ints [sub.state]}"
         let itemsOk := !outerFeed kind || c.implOut.contains s!"items {ints (sortInts sub.items)}"
-        if !sub.stale.isEmpty && sub.fails.isEmpty && sub.used == implRds.length && staleHostsOk && obsOk && stateOk && itemsOk then
+        if !sub.stale.isEmpty && sub.fails.isEmpty && sub.used == implRds.length && obsOk && stateOk && itemsOk then
           let (ko, s) := sub.stale.headD (0, 0)
-          some s!"[C10] known:F9-nested-outer-state-stale {sub.stale.length} elements of the inner body read the OUTER state of the previous outer round (first: outer round {ko}, state {s}) on a host other than the leader's; inner states, rounds and the final state {sub.state} are exactly what these reads give"
+          some s!"[C10] known:F9-nested-outer-state-stale {sub.stale.length} elements of the inner body read the OUTER state of the previous outer round (first: outer round {ko}, state {s}; hosts {staleHosts}, outer leader on host {leaderHost}); inner states, rounds and the final state {sub.state} are exactly what these reads give"
         else none
       let (fails, nodiff) := match f9 with
         | some m => ([m], true)
